@@ -53,8 +53,10 @@ def base(i):
 # ---------------------------------------------------------------------------------------
 def run_memlog(sc, chooser):
     s = S.Sched(("eliot/_output.py",))
+    _patch_locks(s)
     logger = MemoryLogger()
-    logger._lock = S.CoopLock(s)
+    if hasattr(logger, "_lock") and not isinstance(logger._lock, S.CoopLock):
+        logger._lock = S.CoopLock(s)
 
     def make(ops):
         def body():
@@ -178,7 +180,105 @@ def run_filedest(sc, chooser):
             "errors": [repr(t.error) for t in s.threads.values() if t.error]}, s.steps
 
 
-RUNNERS = {"memlog": run_memlog, "filedest": run_filedest}
+# ---------------------------------------------------------------------------------------
+def _patch_locks(s):
+    """Every lock the output layer creates from now on is a cooperative one."""
+    if hasattr(_output, "Lock"):
+        _output.Lock = lambda: S.CoopLock(s)
+
+
+def run_handover(sc, chooser):
+    s = S.Sched(("eliot/_output.py",))
+    _patch_locks(s)
+    D = Destinations()
+    buf = D._destinations[0]
+    if hasattr(buf, "_lock") and not isinstance(buf._lock, S.CoopLock):
+        buf._lock = S.CoopLock(s)
+    dests = []
+    for d in sc["dests"]:
+        def dest(msg, d=d):
+            s.yield_point(("dest", d))
+            s.event(e="deliver", op="", d=d, id=msg["id"])
+        dests.append(dest)
+
+    def send(i):
+        s.event(e="inv", op="send", id=i, d=0)
+        D.send(dict(base(i), message_type="m"))
+        s.event(e="res", op="send", id=i, d=0)
+
+    for i in sc.get("pre", []):
+        send(i)
+
+    def logger(ids):
+        def body():
+            for i in ids:
+                send(i)
+        return body
+
+    def adder():
+        s.event(e="inv", op="add", id=0, d=0)
+        D.add(*dests)
+        s.event(e="res", op="add", id=0, d=0)
+
+    for name, ids in sorted(sc["threads"].items()):
+        s.spawn(name, logger(ids))
+    s.spawn("A", adder)
+    s.run(chooser)
+    for i in sc.get("post", []):
+        send(i)
+    return {"ev": s.log, "dests": sc["dests"], "errors": [repr(t.error) for t in s.threads.values() if t.error]}, s.steps
+
+
+def run_once(sc, chooser):
+    from eliot import start_action, preserve_context, _action
+    from eliot._action import TooManyCalls
+    s = S.Sched(("eliot/_action.py",))
+    D = Destinations()
+    Logger._destinations = D
+    got = []
+    D.add(got.append)
+    calls = []
+    sentinel = object()
+    boom = RuntimeError("f raises")
+
+    def f(x):
+        s.yield_point(("f", 0))
+        calls.append(x)
+        if sc.get("raises"):
+            raise boom
+        return sentinel
+
+    box = {}
+
+    def main_part():
+        with start_action(action_type="A"):
+            box["p"] = preserve_context(f)
+    main_part()
+    p = box["p"]
+
+    def caller(n):
+        def body():
+            for k in range(n):
+                s.event(e="inv", op="call")
+                try:
+                    r = p(7)
+                    s.event(e="res", r="ran" if r is sentinel else "wrong_result")
+                except TooManyCalls:
+                    s.event(e="res", r="too_many")
+                except BaseException as e:
+                    s.event(e="res", r="ran" if e is boom else "other:" + type(e).__name__)
+        return body
+
+    for name, n in sorted(sc["threads"].items()):
+        s.spawn(name, caller(n))
+    s.run(chooser)
+    keys = [(m["task_uuid"], tuple(m["task_level"])) for m in got]
+    return {"ev": s.log, "f_calls": len(calls), "dup_levels": len(keys) - len(set(keys)),
+            "remote_starts": sum(1 for m in got if m.get("action_type") == "eliot:remote_task" and m.get("action_status") == "started"),
+            "errors": [repr(t.error) for t in s.threads.values() if t.error]}, s.steps
+
+
+RUNNERS = {"memlog": run_memlog, "filedest": run_filedest, "handover": run_handover, "once": run_once}
 
 
 def main():
